@@ -2,6 +2,7 @@ package main
 
 import (
 	"fmt"
+	"os"
 	"go/token"
 	"go/types"
 	"strings"
@@ -43,6 +44,35 @@ func factsAt(b *ssa.BasicBlock) []fact {
 					out = append(out, fact{iff.Cond, i == 0})
 				}
 			}
+		}
+	}
+	// short-circuit values: `a && b` used as a value (switch case) is phi[pa: false, pb: b];
+	// if it is true, b is true and everything known at pb holds; dually for `||` being false
+	for i := 0; i < len(out); i++ {
+		p, ok := out[i].cond.(*ssa.Phi)
+		if !ok {
+			continue
+		}
+		var nonConst []int
+		constVal := true
+		okShape := true
+		for k, e := range p.Edges {
+			if bv, isC := constBool(e); isC {
+				constVal = bv
+			} else {
+				nonConst = append(nonConst, k)
+			}
+			_ = k
+		}
+		if len(nonConst) != 1 || len(p.Edges) < 2 {
+			okShape = false
+		}
+		// && : constant edges are false, phi true ⇒ the non-constant operand is true
+		// || : constant edges are true, phi false ⇒ the non-constant operand is false
+		if okShape && ((out[i].pol && !constVal) || (!out[i].pol && constVal)) {
+			k := nonConst[0]
+			out = append(out, fact{p.Edges[k], out[i].pol})
+			out = append(out, factsAt(p.Block().Preds[k])...)
 		}
 	}
 	// normalise negations
@@ -995,6 +1025,12 @@ func storedNonEmpty(fn *ssa.Function, fld *types.Var, appendSt *ssa.Store) strin
 	}
 	if last == nil {
 		return ""
+	}
+	if os.Getenv("HLSVERIF_DEBUG") != "" {
+		for _, f := range factsAt(last.Block()) {
+			fmt.Fprintf(os.Stderr, "DEBUG fact %v pol=%v\n", f.cond, f.pol)
+		}
+		fmt.Fprintf(os.Stderr, "DEBUG val %v block %d\n", last.Val, last.Block().Index)
 	}
 	if ok, why := lenAtLeast(factsAt(last.Block()), last.Val, 1, last); ok {
 		return "the value assigned just before the append is non-empty: " + why
